@@ -48,6 +48,13 @@ CLAIMED.update({
          "Interleavings only at the hooked critical-section boundaries; the race part samples real schedules and cannot be replayed exactly (re-run up to 10 times)."),
 })
 
+CLAIMED.update({
+ "C14": ("exploration", "5.14", "Archive request tasks park at every gap between two files while a seeded write burst (new device + first report; registration + first device + report; rotation; reports) is injected; request bursts at one simulated instant probe the limiter. Every 200 reply is unzipped: exact names, record-aligned prefixes of the final files, dependency closure (reports verify under archived authorizations, authorizations under the archived GCA key, weekly records under server.pubkey), no private-key bytes in compressed or decompressed form, never more than the limit admitted inside one rate window.",
+         "Assumes one write call is atomic with respect to a concurrent read of the same file (README); bursts are injected between files, not inside a write."),
+ "C08": ("exploration", "5.8", "Full world: the real client (own send loop and sync rounds), a meter appending readings, 1-3 real servers; every datagram independently dropped / duplicated / delayed / reordered, sync sessions refused / reset / cut / corrupted, servers down, optional rotation and restart; then faults stop, a sync round runs against reachable servers and the contacted server must hold a record for every still-acceptable slot of its window for which the device has a reading. At all times every acted-on datagram of a slot is byte-identical and no slot of the device is banned on any server.",
+         "Readings fit 32 signed bits (the property's restriction); coverage is claimed for the server contacted by the final round; socket layer is the simulated fabric."),
+})
+
 NOT_YET = {
 }
 
